@@ -98,19 +98,23 @@ structure BcState where
   foundBestBlock : Bool
   deriving Repr, Inhabited
 
+/-- one hash query of `get_blockchain_state`: the answer must echo the operation and the selector
+    and carry 32 bytes -/
+def getStateHash (sel : Nat) : M Bytes := do
+  let r ← sendCommand (u8 Command_GET_STATE) [u8 GetStateOps_HASH, UInt8.ofNat sel]
+  let op ← idx r 2
+  -- `or` short-circuits: `result[3]` is only read when the op matches
+  if op != u8 GetStateOps_HASH then M.throw' .dongleError else
+  let s ← idx r 3
+  if s.toNat != sel || (r.drop 4).length != HASH_SIZE then M.throw' .dongleError
+  else pure (r.drop 4)
+
 def getStateHashes : List (String × Nat) → M (List (String × Bytes))
   | [] => pure []
   | (key, sel) :: rest => do
-    let r ← sendCommand (u8 Command_GET_STATE) [u8 GetStateOps_HASH, UInt8.ofNat sel]
-    let op ← idx r 2
-    -- `or` short-circuits: `result[3]` is only read when the op matches
-    if op != u8 GetStateOps_HASH then M.throw' .dongleError else
-    let s ← idx r 3
-    if s.toNat != sel || (r.drop 4).length != HASH_SIZE then
-      M.throw' .dongleError
-    else do
-      let tl ← getStateHashes rest
-      pure ((key, r.drop 4) :: tl)
+    let hsh ← getStateHash sel
+    let tl ← getStateHashes rest
+    pure ((key, hsh) :: tl)
 
 /-- `get_blockchain_state` -/
 def getBlockchainState : M BcState := do
